@@ -2,6 +2,7 @@
 //! `--cfg mrecordlog_verif`) through generated or replayed cases, evaluates the property oracles
 //! on the implementation alone, and writes the annotated cases the Lean model driver replays.
 mod camp;
+mod crash;
 mod gen;
 mod ops;
 mod real;
